@@ -722,6 +722,19 @@ def regenerate_transform(source_fn):
 #######################
 
 
+
+def _tag_constant_leaves(retval_diffs):
+    # constants in the return value come back untagged: tag only those
+    # leaves NoChange and keep the tags computed for the others
+    if Diff.static_check_tree_diff(retval_diffs):
+        return retval_diffs
+    return jtu.tree_map(
+        lambda v: v if Diff.is_diff(v) else Diff.no_change(v),
+        retval_diffs,
+        is_leaf=Diff.is_diff,
+    )
+
+
 @Pytree.dataclass
 class StaticGenerativeFunction(Generic[R], GenerativeFunction[R]):
     """A `StaticGenerativeFunction` is a generative function which relies on program
@@ -843,14 +856,7 @@ class StaticGenerativeFunction(Generic[R], GenerativeFunction[R]):
                 bwd_requests,
             ),
         ) = update_transform(self.source)(key, trace, constraint, argdiffs)
-        if not Diff.static_check_tree_diff(retval_diffs):
-            # constants in the return value come back untagged: tag only those
-            # leaves NoChange and keep the tags computed for the others
-            retval_diffs = jtu.tree_map(
-                lambda v: v if Diff.is_diff(v) else Diff.no_change(v),
-                retval_diffs,
-                is_leaf=Diff.is_diff,
-            )
+        retval_diffs = _tag_constant_leaves(retval_diffs)
 
         def make_bwd_request(traces, subconstraints):
             addresses = traces.keys()
@@ -889,6 +895,7 @@ class StaticGenerativeFunction(Generic[R], GenerativeFunction[R]):
                 bwd_requests,
             ),
         ) = static_edit_request_transform(self.source)(key, trace, addressed, argdiffs)
+        retval_diffs = _tag_constant_leaves(retval_diffs)
 
         def make_bwd_request(
             traces: dict[StaticAddress, Trace[R]],
@@ -931,6 +938,7 @@ class StaticGenerativeFunction(Generic[R], GenerativeFunction[R]):
         ) = regenerate_transform(self.source)(
             key, trace, selection, edit_request, argdiffs
         )
+        retval_diffs = _tag_constant_leaves(retval_diffs)
 
         def make_bwd_request(
             traces: dict[StaticAddress, Trace[R]],
